@@ -987,10 +987,11 @@ func (s *preemptSched) Pick(w *World, procs []*Proc, runnable []int) int {
 // Fault addresses a verdict for one visible event of one process.
 type Fault struct {
 	Proc int    `json:"proc"`
-	K    int    `json:"k"`    // visible-event ordinal of that process
-	Act  string `json:"act"`  // kill | torn:N | short:N | err:N
-	Op   string `json:"op"`   // informational: the op expected there
-	Note string `json:"note"` // informational
+	K    int    `json:"k"`              // visible-event ordinal of that process
+	Act  string `json:"act"`            // kill | torn:N | short:N | err:N
+	Op   string `json:"op"`             // informational: the op expected there
+	Note string `json:"note"`           // informational
+	Then *Fault `json:"then,omitempty"` // a second fault of the same process (e.g. a short write followed by ENOSPC on the rest)
 }
 
 type BatchResult struct {
